@@ -49,10 +49,24 @@ func c01GenCfg(r *RNG, rep string, d *EnvData) GenCfg {
 	cfg := GenCfg{Budget: r.Range(4, 40), Calls: true, Dyn: r.Chance(2, 3), Failing: r.Chance(3, 4), Strings: r.Chance(3, 4),
 		Closures: r.Chance(4, 5), Maps: r.Chance(2, 3), Objects: r.Chance(3, 4), ShortPred: r.Chance(2, 3), NilSafe: r.Chance(1, 2), SliceCall: true}
 	cfg.AnyUsable = rep != RepMap || (d.Any != nil && d.Any.Kind == "int")
+	cfg.MapRep = rep == RepMap
 	return cfg
 }
 
 func genRoot(g *gen, r *RNG) *N {
+	if g.cfg.Calls && !g.cfg.AllocOnly && r.Chance(1, 12) {
+		// tuples: a fast-call function that keeps (returns) its variadic slice;
+		// several results are alive at the same time
+		if g.cfg.Closures && r.Chance(1, 2) {
+			return nBi("map", g.Seq(), nCall("Tup", nPtr(), nBin("*", nPtr(), nInt(2))))
+		}
+		k := r.Range(2, 3)
+		xs := make([]*N, k)
+		for i := range xs {
+			xs[i] = nCall("Tup", g.Int(), g.intLeaf())
+		}
+		return nArr(xs...)
+	}
 	switch r.Intn(6) {
 	case 0:
 		return g.Bool()
